@@ -88,11 +88,11 @@ pub fn prepare(c: &SchedCase) -> Result<Prepared, String>
                 all.retain(|i| i.target() != Some(t.as_str()));
                 if all.is_empty()
                 {
-                    all.push(Instr::Nop { tag: format!("r{}", ri) });
+                    all.push(Instr::Nop { tag: format!("ng{}", ri) });
                 }
             }
         }
-        r.script = match late_fail_line { Some(l) => vec![l, all], None => vec![all] };
+        r.script = match late_fail_line { Some(l) => if all.is_empty() { vec![l] } else { vec![l, all] }, None => if all.is_empty() { vec![] } else { vec![all] } };
         originals.push((ri, orig));
     }
     for f in flags.iter()
@@ -249,6 +249,7 @@ pub fn check_c04(w: &World, obs: &Obs) -> Result<bool, String>
         let pos = match &r.outcome[*i]
         {
             ROut::Failed(FailKind::Errored) => remaining.iter().position(|e| *e == WErr::CmdErrored),
+            ROut::Failed(FailKind::NoCommand) => remaining.iter().position(|e| *e == WErr::NoCommand),
             ROut::Failed(FailKind::NotGenerated(ts)) => remaining.iter().position(|e| matches!(e, WErr::NotGenerated(t) if ts.contains(t))),
             _ => None,
         };
